@@ -723,8 +723,13 @@ func c11Oracle(c *ConfCase) (msg string, accepted bool) {
 				cfg.Types = append(cfg.Types, b.types[td.Name])
 			}
 		}
-		if b.has("nilInTypes", "", "") != nil {
-			cfg.Types = append(cfg.Types, nil)
+		if f := b.has("nilInTypes", "", ""); f != nil {
+			// an untyped nil, or a typed nil pointer of any kind of type
+			typedNils := []graphql.Type{nil, (*graphql.Object)(nil), (*graphql.List)(nil), (*graphql.NonNull)(nil), (*graphql.Enum)(nil), (*graphql.Scalar)(nil),
+				(*graphql.Interface)(nil), (*graphql.Union)(nil), (*graphql.InputObject)(nil)}
+			k := 0
+			fmt.Sscanf(f.Arg, "%d", &k)
+			cfg.Types = append(cfg.Types, typedNils[k%len(typedNils)])
 		}
 		if f := b.has("nilDirective", "", ""); f != nil {
 			cfg.Directives = append(append([]*graphql.Directive{}, graphql.SpecifiedDirectives...), nil)
@@ -943,6 +948,8 @@ func TestC11(t *testing.T) {
 				if gen.Chance(rt, 70, "drawnBadName") {
 					f.Bad = illegalNames[gen.Uniform(rt, len(illegalNames), "badName")]
 				}
+			case "nilInTypes":
+				f.Arg = fmt.Sprint(gen.Uniform(rt, 9, "nilKind"))
 			case "nonNullOfNonNullArg":
 				if gen.Chance(rt, 40, "belowList") {
 					f.Bad = "list"
